@@ -188,16 +188,19 @@ def gen_cases(ctx):
         return {"id": cid, "kind": kind, "dm": list(dm), "bg": bg, "cells": cells_flat, "family": family}
 
     # 1. every binary design on small lattices
-    exh = [(1, 1, 1), (1, 1, 2), (1, 1, 3), (3, 1, 3), (1, 3, 3), (3, 3, 1), (2, 2, 2), (2, 2, 3), (3, 2, 2)]
+    exh = [(1, 1, 1), (1, 1, 2), (1, 1, 3), (3, 1, 3), (1, 3, 3), (3, 3, 1), (2, 2, 2), (2, 2, 3)]
     if not ctx.quick:
-        exh += [(2, 3, 2), (4, 3, 1), (3, 3, 2)]
+        exh += [(3, 2, 2), (2, 3, 2), (4, 3, 1), (3, 3, 2)]
     for dm in exh:
         n = dm[0] * dm[1] * dm[2]
         for kind in ("remove", "connect"):
             if n > 12 and kind == "connect":
                 continue  # 2^18: remove only; connect is sampled below
             for d in range(2**n):
-                for b in (0, 1) if n <= 9 else (((d * 2654435761) >> 7) & 1,):
+                if ctx.quick and n > 9 and kind == "connect" and d % 4 != 1:
+                    ctx.exhaustive = False
+                    continue  # quick: connect-holes on a quarter of the 2x2x3 designs (thorough: all)
+                for b in (0, 1) if n <= (8 if ctx.quick else 9) else (((d * 2654435761) >> 7) & 1,):
                     c = emit(kind, dm, b, [(d >> i) & 1 for i in range(n)], "all", str(d))
                     if c:
                         yield c
@@ -215,7 +218,7 @@ def gen_cases(ctx):
                 if c:
                     yield c
     # 3. adversarial paths: every prefix, eight orientations; for connect also the complement (air channel)
-    bases = [(5, 5, 3), (7, 7, 3), (6, 5, 4), (3, 3, 3), (4, 4, 5)] if ctx.quick else [(5, 5, 3), (7, 7, 3), (6, 5, 4), (3, 3, 3), (4, 4, 5), (9, 7, 3), (8, 8, 5), (3, 3, 8)]
+    bases = [(5, 5, 3), (7, 7, 3), (3, 3, 3), (4, 4, 5)] if ctx.quick else [(5, 5, 3), (7, 7, 3), (6, 5, 4), (3, 3, 3), (4, 4, 5), (9, 7, 3), (8, 8, 5), (3, 3, 8)]
     fams = []
     for dm in bases:
         for zl in range(1, dm[2]):
@@ -229,11 +232,12 @@ def gen_cases(ctx):
     for dm in [(2, 2, 3), (3, 2, 3), (2, 3, 3), (3, 3, 2)]:
         fams.append(("helix", dm, _helix(dm)))
     for name, dm0, path in fams:
-        orients = range(8) if not name.startswith("snake") else (0,)
+        orients = (0,) if name.startswith("snake") else range(8) if (not ctx.quick or name in ("serp1", "helix")) else (0, 3, 5, 6)
         stride = 1 if (not ctx.quick or len(path) <= 14) else 2
+        kmin = 2 if not ctx.quick else max(2, max(dm0) - 1)  # (a path of <= max(shape) cells cannot show the loop bound)
         for o in orients:
             pth, dm = _orient(path, dm0, o)
-            ks = sorted(set(list(range(2, len(pth) + 1, stride)) + [len(pth)]))
+            ks = sorted(set(list(range(kmin, len(pth) + 1, stride)) + [len(pth)]))
             for k in ks:
                 flat = _flat(pth[:k], dm)
                 c = emit("remove", dm, 0, flat, name, f"o{o}k{k}")
